@@ -150,6 +150,12 @@ func c19(p *P) {
 			}
 			p.guardedAfter("C19.R2", fn, append(okReturns(fn), inLoopBegin...), errFails("oracle error-free", "sim.simEC.Err", ""))
 			p.guardedAfter("C19.R2", fn, inLoopBegin, callResult("consensus reached", "sim.ECInstance.HasReachedConsensus", "", 1, avFalse))
+			// errors recorded during the previous tick are surfaced before the run can be declared complete
+			var errS []Sink
+			for _, e := range errCalls {
+				errS = append(errS, Sink{e.Instr, "oracle error check"})
+			}
+			p.before("C19.R2", fn, "oracle error check", errS, "completion check", callSinks(fn, "completion", "sim.ECInstance.HasCompleted"))
 		}
 	}
 	if fn := p.fn("C19.R2", "sim.ECInstance.HasReachedConsensus"); fn != nil {
@@ -212,11 +218,13 @@ func c19(p *P) {
 				if !ok || canon(b.X) != "$2" || found {
 					return
 				}
+				// normalise to "bootstrap iff instance < T"
+				y := renameLin(linOf(b.Y), manifestSyms)
 				switch b.Op {
-				case token.LSS:
-					out, found = renameLin(linOf(b.Y), manifestSyms), true
-				case token.GEQ:
-					out, found = renameLin(linOf(b.Y), manifestSyms), true
+				case token.LSS, token.GEQ:
+					out, found = y, true
+				case token.LEQ, token.GTR:
+					out, found = y.add(linConst(1), 1), true
 				}
 			})
 			return out, found
